@@ -1,6 +1,12 @@
 """C22  Sorting and selection utilities are correct and stable (DESIGN.md §5.C22)."""
 import itertools
 
+META = {
+    "technique": "Lean 4 proof (induction: stable-sort invariant over runs and merge passes) + exact differential correspondence with the compiled macros",
+    "text": "mjSORT / insertion sort: proved for every length and every total-preorder comparator that the model returns a sorted permutation preserving every ordered subsequence (stability); mjPARTIAL_SORT modelled at heap-operation level and tied by exact correspondence. The model is hand-written; the tie is a differential run of the unmodified macros of engine_sort.h against the compiled Lean model (exhaustive small scope + seeded random around run boundaries).",
+    "note": "model abstracts the ping-pong buffers to lists of runs (index arithmetic covered by the correspondence only).",
+}
+
 THEOREMS = [
     "MjProof.C22.mjSort_perm",
     "MjProof.C22.mjSort_stableSorted",
